@@ -23,6 +23,15 @@ META = {
 }
 
 
+def rule_readonly_table(ck):
+    """the table of header names a caller cannot override (also imported by C17.7)"""
+    prog = ck.prog
+    ro = prog.const("jsonrpc", _class_attr(prog, "TransportMixIn", "readonly_headers"))
+    ck.require(set(ro) == spec.PROTECTED_HEADERS, "C18.3", "jsonrpc.TransportMixIn.readonly_headers", "= %s" % sorted(spec.PROTECTED_HEADERS),
+               "the protected header names are %r; exactly Content-Length and Content-Type (lower case) must be protected, every other pushed "
+               "name must be carried" % (ro,), "jsonrpclib/jsonrpc.py")
+
+
 def check(ck):
     prog = ck.prog
     # ---- C18.1 push/pop pairing -----------------------------------------------------------------
@@ -205,10 +214,7 @@ def check(ck):
     ck.require(len(pops_ro) == 1 and all(before(pops_ro[0][0], p_) for p_ in puts) and bool(puts) and
                all(before(n, pops_ro[0][0]) for n in stores), "C18.3", "%s: merge -> protected-name filter -> emission" % q.fn(fe), "ordered",
                "the protected names are not removed after the merge and before the emission", q.loc(fe, fe.node))
-    ro = prog.const("jsonrpc", _class_attr(prog, "TransportMixIn", "readonly_headers"))
-    ck.require(set(ro) == spec.PROTECTED_HEADERS, "C18.3", "jsonrpc.TransportMixIn.readonly_headers", "= %s" % sorted(spec.PROTECTED_HEADERS),
-               "the protected header names are %r; exactly Content-Length and Content-Type (lower case) must be protected, every other pushed "
-               "name must be carried" % (ro,), "jsonrpclib/jsonrpc.py")
+    rule_readonly_table(ck)
     ge = cfg_of(fe)
     rets = [n for n in ge.live_nodes() if n.kind == "return"]
     for rn in rets:
